@@ -8,8 +8,8 @@ MC_DomH5 == {9}
 MC_DomHDKG == {1}
 MC_DomHR == {1}
 MC_DomHID == {1}
-MC_Shapes == {<<n,n>> : n \in (2..34) \cup {63,64,65}}
-MC_IdSets == {1..n : n \in (2..34) \cup {63,64,65}}
+MC_Shapes == {<<n,n>> : n \in (2..12) \cup {16,17,31,32,33,63,64,65}}
+MC_IdSets == {1..n : n \in (2..12) \cup {16,17,31,32,33,63,64,65}}
 MC_KeyChoices == {200}
 MC_CoeffChoices == {3}
 MC_RandChoices == {1}
@@ -17,5 +17,6 @@ MC_Msgs == {<<104,105>>}
 MC_MaxExtra == 0
 MC_EMIT == TRUE
 MC_ListOrders == {"asc"}
+MC_BatchAtEnd == FALSE
 
 ====
